@@ -35,8 +35,43 @@ fn run(stream: Vec<DltMessage>) -> (Vec<DltMessage>, Vec<(u32, String, u64, u32,
     (out, table)
 }
 
+fn msg_text(mstp_log: bool, text: &str) -> DltMessage {
+    let mut m = msg(0, b"ECU1", 1000, 1000);
+    // verb_mstp_mtin: verbose=1, mstp (bits 1..3), mtin (bits 4..7)
+    let vmm: u8 = if mstp_log { 1 | (0 << 1) | (4 << 4) } else { 1 | (3 << 1) | (1 << 4) };
+    m.extended_header = Some(DltExtendedHeader { verb_mstp_mtin: vmm, noar: 0, apid: DltChar4::from_buf(b"APID"), ctid: DltChar4::from_buf(b"CTID") });
+    m.payload_text = Some(text.to_string());
+    m
+}
+
 fn main() {
     let which = std::env::args().nth(1).unwrap_or_default();
+    if which == "f1" {
+        use adlt::filter::Filter;
+        let f = Filter::from_json(r#"{"type":0,"mstp":3}"#).unwrap();
+        let j = f.to_json();
+        let f2 = Filter::from_json(&j).unwrap();
+        let log = msg_text(true, "hello");
+        let ctrl = msg_text(false, "hello");
+        println!("to_json = {}", j);
+        println!("original: matches(log)={} matches(ctrl)={}", f.matches(&log), f.matches(&ctrl));
+        println!("reloaded: matches(log)={} matches(ctrl)={}", f2.matches(&log), f2.matches(&ctrl));
+        let bad = f.matches(&log) != f2.matches(&log) || f.matches(&ctrl) != f2.matches(&ctrl);
+        println!("{}", if bad { "C11 VIOLATED: serialised+reloaded filter decides differently" } else { "consistent" });
+        std::process::exit(if bad { 1 } else { 0 });
+    }
+    if which == "f2" {
+        use adlt::filter::Filter;
+        let dlf = r#"<?xml version="1.0" encoding="UTF-8"?><dltfilter><filter><type>0</type><name>x</name><payloadtext>fOo</payloadtext><enablepayloadtext>1</enablepayloadtext><enablefilter>1</enablefilter></filter></dltfilter>"#;
+        let fs = adlt::filter::functions::filters_from_dlf(std::io::BufReader::new(dlf.as_bytes())).unwrap();
+        let fj = Filter::from_json(r#"{"type":0,"payload":"fOo"}"#).unwrap();
+        let m = msg_text(true, "xx FOO yy");
+        println!("dlf filter: ignore_case_payload={} matches={}", fs[0].ignore_case_payload, fs[0].matches(&m));
+        println!("json filter: ignore_case_payload={} matches={}", fj.ignore_case_payload, fj.matches(&m));
+        let bad = fs[0].matches(&m) != fj.matches(&m);
+        println!("{}", if bad { "C11 VIOLATED: same abstract filter decides differently via DLF and JSON" } else { "consistent" });
+        std::process::exit(if bad { 1 } else { 0 });
+    }
     if which == "p4" {
         // A 1000/1000, B 61500/1000, A 62000/55000, B 100000/39500, A 132000/125000, A 133000/132000 (ms recv / ms timestamp)
         let s = vec![
